@@ -399,6 +399,9 @@ func newSys(p *node, checkPeriod time.Duration) (*sys, error) {
 			w.Write([]byte("ok")) // the quick healthy answer never chooses a status: an IMPLICIT 200
 			return
 		}
+		if s.code == 504 {
+			w.WriteHeader(http.StatusEarlyHints) // the slow failing answer sends an informational response first
+		}
 		w.WriteHeader(s.code)
 	})
 	cb, err := cbreaker.New(h, p.String(), cbreaker.FallbackDuration(fallbackD), cbreaker.RecoveryDuration(recoveryD), cbreaker.CheckPeriod(checkPeriod),
